@@ -601,6 +601,20 @@ def symbolic_block(stmts: List[ast.stmt], max_paths: int = 256):
     """symbolic_returns for a statement list (e.g. the body of a loop): loop-carried variables
     and everything defined outside stay free names. A path that falls off the end of the block
     is reported with return node None and the final environment as a dict name -> expression."""
+    import copy
+
+    class _LoopExits(ast.NodeTransformer):
+        # `continue` / `break` of the enclosing loop end the iteration: a bare return
+        def visit_For(self, node):  # nested loops keep their own
+            return node
+        visit_While = visit_For
+        visit_FunctionDef = visit_For
+        visit_Lambda = visit_For
+
+        def visit_Continue(self, node):
+            return ast.copy_location(ast.Return(value=None), node)
+        visit_Break = visit_Continue
+    stmts = [_LoopExits().visit(copy.deepcopy(s)) for s in stmts]
     fn = ast.FunctionDef(name="_block", args=ast.arguments(posonlyargs=[], args=[], kwonlyargs=[],
                                                             kw_defaults=[], defaults=[]),
                          body=list(stmts), decorator_list=[], returns=None, type_comment=None,
